@@ -7,6 +7,8 @@ use proptest::strategy::BoxedStrategy;
 
 pub mod enga_props;
 pub use enga_props::*;
+pub mod diff_props;
+pub use diff_props::*;
 
 /// smaller variants of an Engine-A case: drop chunks of the op list (ddmin style)
 pub fn simplify_case_a(c: &CaseA) -> Vec<CaseA> {
